@@ -186,7 +186,8 @@ theorem readSite_lengths (cfg : SiteCfg) (st : SiteSt) (gts : List GtRes) :
   | some st1 =>
     obtain ⟨a, b, _⟩ := (tally_spec cfg.map cfg.cols gts _).2 st1 ht
     simp only [readSite, ht]
-    simpa using ⟨a, b⟩
+    simp only [List.length_map] at a b
+    exact ⟨a, b⟩
 
 /-- `read_site` returns the pure function `siteSpec` of the current record, whatever the buffers held.
     Only the last clause of `CfgOk` is needed. -/
@@ -201,16 +202,851 @@ theorem readSite_eq_spec (cfg : SiteCfg)
     obtain ⟨st1, ht, hc, htot, hsk⟩ := hB hp
     simp only [readSite, siteSpec, ht, hc, htot, hsk, hp]
     cases hq : cfg.projectTo with
-    | none => simp
+    | none => simp only; split <;> rfl
     | some pt =>
       have hl : (calledTotals (numPops cfg.map) (selected cfg.map cfg.cols gts)).length = pt.length := by
         rw [hpt pt hq]; simp [calledTotals_eq]
-      simp only [zipWith_eq_all _ _ hl]
-      simp [ge_iff_le]
+      simp only [zipWith_eq_all _ _ hl, ge_iff_le, decide_eq_true_eq]
+      split
+      · rfl
+      · split <;> rfl
 
 theorem readSite_eq_spec_of_cfgOk (cfg : SiteCfg) (hc : CfgOk cfg) (st : SiteSt)
     (h1 : st.counts.length = numPops cfg.map) (h2 : st.totals.length = numPops cfg.map) (gts : List GtRes) :
     (readSite cfg st gts).1 = siteSpec cfg gts :=
   readSite_eq_spec cfg hc.2.2.2.2 st h1 h2 gts
+
+/-! ### `flatIndex`, `addOne`, `addProjected` as entrywise additions -/
+
+theorem flatIndex_eq (shape c : List Nat) :
+    flatIndex shape c = if InB shape c then some (flat shape c) else none := by
+  unfold flatIndex
+  rw [strides_length, dot_strides]
+  by_cases hl : shape.length = c.length
+  · have := inBounds_iff shape c hl.symm
+    by_cases hin : InB shape c
+    · simp [hl, hin, this.mpr hin]
+    · have : inBounds shape c = false := by
+        cases hb : inBounds shape c with
+        | false => rfl
+        | true => exact absurd (this.mp hb) hin
+      simp [hl, hin, this]
+  · have hin : ¬ InB shape c := fun h => hl (InB_length shape c h).symm
+    simp [hl, hin]
+
+theorem flatIndex_eq_some_iff (shape c : List Nat) (f : Nat) :
+    flatIndex shape c = some f ↔ InB shape c ∧ flat shape c = f := by
+  rw [flatIndex_eq]
+  by_cases hin : InB shape c <;> simp [hin]
+
+theorem getD_range_map {β} (d : β) (n : Nat) (g : Nat → β) (f : Nat) :
+    ((List.range n).map g).getD f d = if f < n then g f else d := by
+  rw [List.getD_eq_getElem?_getD]
+  by_cases h : f < n
+  · simp [h]
+  · simp [h]
+
+theorem getD_replicate {β} (d : β) (n f : Nat) : (List.replicate n d).getD f d = d := by
+  rw [List.getD_eq_getElem?_getD, List.getElem?_replicate]
+  split <;> rfl
+
+theorem getD_of_le {β} (d : β) (l : List β) (f : Nat) (h : l.length ≤ f) : l.getD f d = d := by
+  rw [List.getD_eq_getElem?_getD, List.getElem?_eq_none h]; rfl
+
+theorem list_eq_range_map {β} (d : β) (l : List β) : l = (List.range l.length).map (fun f => l.getD f d) := by
+  apply list_ext_getD d
+  · simp
+  · intro j hj
+    rw [getD_range_map, if_pos hj]
+
+section field
+variable {α : Type} [Field α]
+
+theorem zipWith_add_length (a b : List α) (h : a.length = b.length) :
+    (List.zipWith (· + ·) a b).length = a.length := by
+  simp [h]
+
+theorem zipWith_add_getD (a b : List α) (h : a.length = b.length) (f : Nat) :
+    (List.zipWith (· + ·) a b).getD f 0 = a.getD f 0 + b.getD f 0 := by
+  by_cases hf : f < a.length
+  · have hf' : f < b.length := by omega
+    simp [List.getD_eq_getElem?_getD, hf, hf']
+  · have hf' : a.length ≤ f := by omega
+    rw [getD_of_le _ _ _ (by simp; omega), getD_of_le _ _ _ hf', getD_of_le _ _ _ (by omega)]
+    simp
+
+theorem zipWith_add_zero_left (n : Nat) (b : List α) (h : b.length = n) :
+    List.zipWith (· + ·) (List.replicate n (0 : α)) b = b := by
+  apply list_ext_getD 0
+  · simp [h]
+  · intro j _
+    rw [zipWith_add_getD _ _ (by simp [h]), getD_replicate, zero_add]
+
+theorem zipWith_add_zero_right (n : Nat) (a : List α) (h : a.length = n) :
+    List.zipWith (· + ·) a (List.replicate n (0 : α)) = a := by
+  apply list_ext_getD 0
+  · simp [h]
+  · intro j _
+    rw [zipWith_add_getD _ _ (by simp [h]), getD_replicate, add_zero]
+
+theorem zipWith_add_assoc (a b c : List α) (h1 : a.length = b.length) (h2 : b.length = c.length) :
+    List.zipWith (· + ·) (List.zipWith (· + ·) a b) c = List.zipWith (· + ·) a (List.zipWith (· + ·) b c) := by
+  apply list_ext_getD 0
+  · simp [h1, h2]
+  · intro j _
+    rw [zipWith_add_getD _ _ (by simp [h1, h2]), zipWith_add_getD _ _ h1,
+      zipWith_add_getD _ _ (by simp [h1, h2]), zipWith_add_getD _ _ h2, add_assoc]
+
+theorem addOne_length (shape : List Nat) (scs : List α) (c : List Nat) :
+    (addOne shape scs c).length = scs.length := by
+  unfold addOne
+  split <;> simp
+
+/-- `scs[&counts] += 1` adds the indicator of the flat position; nothing when the index is out of bounds. -/
+theorem addOne_getD (shape : List Nat) (scs : List α) (c : List Nat) (hs : scs.length = size shape) (f : Nat) :
+    (addOne shape scs c).getD f 0 = scs.getD f 0 + if flat shape c = f ∧ InB shape c then 1 else 0 := by
+  unfold addOne
+  rw [flatIndex_eq]
+  by_cases hin : InB shape c
+  · have hlt : flat shape c < scs.length := by rw [hs]; exact flat_lt shape c hin
+    simp only [hin, if_true, and_true]
+    rw [List.getD_eq_getElem?_getD, List.getElem?_set]
+    by_cases e : flat shape c = f
+    · subst e
+      simp [hlt, List.getD_eq_getElem?_getD]
+    · simp [e, List.getD_eq_getElem?_getD]
+  · simp [hin]
+
+theorem addOne_eq_zipWith (shape : List Nat) (scs : List α) (c : List Nat) (hs : scs.length = size shape) :
+    addOne shape scs c = List.zipWith (· + ·) scs
+      ((List.range (size shape)).map (fun f => if flat shape c = f ∧ InB shape c then (1 : α) else 0)) := by
+  apply list_ext_getD 0
+  · simp [addOne_length, hs]
+  · intro j hj
+    rw [addOne_length] at hj
+    rw [addOne_getD _ _ _ hs, zipWith_add_getD _ _ (by simp [hs]), getD_range_map,
+      if_pos (show j < size shape by omega)]
+
+theorem addProjected_length (acc p : List α) (w : α) : (addProjected acc p w).length = acc.length := by
+  unfold addProjected
+  simp only [List.length_append, List.length_zipWith, List.length_drop]
+  omega
+
+theorem addProjected_getD (acc p : List α) (w : α) (f : Nat) (hf : f < acc.length ∨ p.length ≤ acc.length) :
+    (addProjected acc p w).getD f 0 = acc.getD f 0 + p.getD f 0 * w := by
+  by_cases hfa : f < acc.length
+  · unfold addProjected
+    by_cases hfp : f < p.length
+    · rw [List.getD_eq_getElem?_getD, List.getElem?_append_left (by simp; omega)]
+      simp [List.getD_eq_getElem?_getD, hfa, hfp]
+    · rw [List.getD_eq_getElem?_getD, List.getElem?_append_right (by simp; omega)]
+      have hmin : min acc.length p.length = p.length := by omega
+      have : p.length + (f - p.length) = f := by omega
+      simp [List.getD_eq_getElem?_getD, hfa, hfp, hmin, this]
+  · have hpa : p.length ≤ acc.length := by omega
+    rw [getD_of_le _ _ _ (by rw [addProjected_length]; omega), getD_of_le _ acc _ (by omega),
+      getD_of_le _ p _ (by omega)]
+    simp
+
+theorem addProjected_one_eq_zipWith (acc p : List α) (h : p.length = acc.length) :
+    addProjected acc p 1 = List.zipWith (· + ·) acc p := by
+  apply list_ext_getD 0
+  · simp [addProjected_length, h]
+  · intro j _
+    rw [addProjected_getD _ _ _ _ (Or.inr (by omega)), zipWith_add_getD _ _ h.symm, mul_one]
+
+/-! ### contributions -/
+
+theorem contribOfSite_length (cfg : SiteCfg) (o : Option Site) :
+    (contribOfSite (α := α) cfg o).length = size cfg.outShape := by
+  unfold contribOfSite
+  split <;> simp
+
+theorem contrib_length (cfg : SiteCfg) (gts : List GtRes) : (contrib (α := α) cfg gts).length = size cfg.outShape :=
+  contribOfSite_length cfg _
+
+theorem recContrib_length (cfg : SiteCfg) (r : Rec) : (recContrib (α := α) cfg r).length = size cfg.outShape := by
+  cases r with
+  | gts c p l => exact contrib_length cfg l
+  | corrupt c p => simp [recContrib]
+
+theorem contribOfSite_standard_getD (cfg : SiteCfg) (c : List Nat) (f : Nat) :
+    (contribOfSite (α := α) cfg (some (.standard c))).getD f 0
+      = if flat cfg.outShape c = f ∧ InB cfg.outShape c then 1 else 0 := by
+  simp only [contribOfSite]
+  rw [getD_range_map]
+  by_cases hf : f < size cfg.outShape
+  · rw [if_pos hf]
+  · rw [if_neg hf, if_neg]
+    rintro ⟨e, hin⟩
+    have := flat_lt _ _ hin
+    omega
+
+theorem contribOfSite_zero_getD (cfg : SiteCfg) (o : Option Site) (h : o = none ∨ o = some .insufficient) (f : Nat) :
+    (contribOfSite (α := α) cfg o).getD f 0 = 0 := by
+  rcases h with rfl | rfl <;> simp only [contribOfSite] <;> exact getD_replicate 0 _ _
+
+theorem contribOfSite_insufficient (cfg : SiteCfg) :
+    contribOfSite (α := α) cfg (some .insufficient) = List.replicate (size cfg.outShape) 0 := rfl
+
+theorem contribOfSite_none (cfg : SiteCfg) :
+    contribOfSite (α := α) cfg none = List.replicate (size cfg.outShape) 0 := rfl
+
+/-- With a projection configured, the contribution of a projected site is what the projection iterator yields. -/
+theorem contribOfSite_projected (cfg : SiteCfg) (pt t a : List Nat) (h : cfg.projectTo = some pt) :
+    contribOfSite (α := α) cfg (some (.projected t a)) = projectIter t a pt := by
+  rw [projectIter_eq]
+  simp only [contribOfSite, SiteCfg.outShape, h, Option.getD_some]
+
+theorem addOne_eq_contrib (cfg : SiteCfg) (scs : List α) (c : List Nat) (hs : scs.length = size cfg.outShape) :
+    addOne cfg.outShape scs c = List.zipWith (· + ·) scs (contribOfSite cfg (some (.standard c))) :=
+  addOne_eq_zipWith cfg.outShape scs c hs
+
+/-! ### `siteSpec` case analysis -/
+
+theorem siteSpec_projected (cfg : SiteCfg) (gts : List GtRes) (t a : List Nat)
+    (h : siteSpec cfg gts = some (.projected t a)) :
+    ∃ pt, cfg.projectTo = some pt ∧ t = calledTotals (numPops cfg.map) (selected cfg.map cfg.cols gts) ∧
+      a = altCounts (numPops cfg.map) (selected cfg.map cfg.cols gts) ∧ t ≠ pt ∧
+      (List.zipWith (fun t m => decide (m ≤ t)) t pt).all id = true := by
+  unfold siteSpec at h
+  simp only at h
+  split at h
+  · cases h
+  · cases hq : cfg.projectTo with
+    | none =>
+      simp only [hq] at h
+      split at h <;> cases h
+    | some pt =>
+      simp only [hq] at h
+      refine ⟨pt, rfl, ?_⟩
+      split at h
+      · cases h
+      · rename_i hne
+        split at h
+        · rename_i hall
+          injection h with h; injection h with h1 h2
+          subst h1; subst h2
+          exact ⟨rfl, rfl, hne, hall⟩
+        · cases h
+
+theorem siteSpec_none_iff (cfg : SiteCfg) (gts : List GtRes) :
+    siteSpec cfg gts = none ↔ hasPloidyError (selected cfg.map cfg.cols gts) = true := by
+  unfold siteSpec
+  simp only
+  constructor
+  · intro h
+    split at h
+    · assumption
+    · split at h
+      · split at h <;> cases h
+      · split at h
+        · cases h
+        · split at h <;> cases h
+  · intro h; rw [if_pos h]
+
+/-- Without projection the site is decided by completeness alone. -/
+theorem siteSpec_noproj (cfg : SiteCfg) (hnp : cfg.projectTo = none) (gts : List GtRes) :
+    siteSpec cfg gts =
+      if hasPloidyError (selected cfg.map cfg.cols gts) then none
+      else if complete (selected cfg.map cfg.cols gts)
+        then some (.standard (altCounts (numPops cfg.map) (selected cfg.map cfg.cols gts)))
+        else some .insufficient := by
+  unfold siteSpec
+  simp only [hnp]
+
+/-! ### entrywise sums of contributions -/
+
+theorem foldr_add_eq_sum (l : List α) : l.foldr (· + ·) 0 = l.sum := rfl
+
+theorem sumContrib_length (cfg : SiteCfg) (recs : List Rec) :
+    (sumContrib (α := α) cfg recs).length = size cfg.outShape := by
+  simp [sumContrib]
+
+theorem sumContrib_getD (cfg : SiteCfg) (recs : List Rec) (f : Nat) :
+    (sumContrib (α := α) cfg recs).getD f 0 = (recs.map (fun r => (recContrib (α := α) cfg r).getD f 0)).sum := by
+  unfold sumContrib
+  rw [getD_range_map, foldr_add_eq_sum]
+  by_cases hf : f < size cfg.outShape
+  · rw [if_pos hf]
+  · rw [if_neg hf]
+    symm
+    apply List.sum_eq_zero
+    intro x hx
+    obtain ⟨r, _, rfl⟩ := List.mem_map.mp hx
+    exact getD_of_le _ _ _ (by rw [recContrib_length]; omega)
+
+theorem sumContrib_nil (cfg : SiteCfg) : sumContrib (α := α) cfg [] = List.replicate (size cfg.outShape) 0 := by
+  apply list_ext_getD 0
+  · simp [sumContrib_length]
+  · intro j _
+    rw [sumContrib_getD, getD_replicate]; rfl
+
+theorem sumContrib_cons (cfg : SiteCfg) (r : Rec) (rs : List Rec) :
+    sumContrib (α := α) cfg (r :: rs) = List.zipWith (· + ·) (recContrib cfg r) (sumContrib cfg rs) := by
+  apply list_ext_getD 0
+  · simp [sumContrib_length, recContrib_length]
+  · intro j _
+    rw [zipWith_add_getD _ _ (by rw [recContrib_length, sumContrib_length]), sumContrib_getD, sumContrib_getD,
+      List.map_cons, List.sum_cons]
+
+theorem sumContrib_append (cfg : SiteCfg) (a b : List Rec) :
+    sumContrib (α := α) cfg (a ++ b) = List.zipWith (· + ·) (sumContrib cfg a) (sumContrib cfg b) := by
+  apply list_ext_getD 0
+  · simp [sumContrib_length]
+  · intro j _
+    rw [zipWith_add_getD _ _ (by rw [sumContrib_length, sumContrib_length]), sumContrib_getD, sumContrib_getD,
+      sumContrib_getD, List.map_append, List.sum_append]
+
+theorem sumContrib_perm (cfg : SiteCfg) (a b : List Rec) (hp : a.Perm b) :
+    sumContrib (α := α) cfg a = sumContrib cfg b := by
+  apply list_ext_getD 0
+  · simp [sumContrib_length]
+  · intro j _
+    rw [sumContrib_getD, sumContrib_getD]
+    exact (hp.map _).sum_eq
+
+/-! ### the runner -/
+
+/-- The invariant of the run state: spectrum and reader buffers have the right lengths. -/
+def RunInv (cfg : SiteCfg) (st : RunSt α) : Prop :=
+  st.scs.length = size cfg.outShape ∧ st.site.counts.length = numPops cfg.map ∧
+    st.site.totals.length = numPops cfg.map
+
+theorem runInv_init (cfg : SiteCfg) :
+    RunInv cfg (⟨List.replicate (size cfg.outShape) 0, 0, 0, SiteSt.fresh (numPops cfg.map)⟩ : RunSt α) := by
+  simp [RunInv, SiteSt.fresh]
+
+/-- One iteration on a digestible record (in strict mode: one that is not skipped): the spectrum gains the record's
+    contribution, whatever the state was. Only the last clause of `CfgOk` is needed. -/
+theorem runStep_spec (cfg : SiteCfg) (hpt : ∀ pt, cfg.projectTo = some pt → pt.length = numPops cfg.map)
+    (strict : Bool) (st : RunSt α) (hinv : RunInv cfg st) (r : Rec) (hok : recOk cfg r = true)
+    (hstrict : strict = true → recSkipped cfg r = false) :
+    ∃ st', runStep cfg strict st r = .ok st' ∧ RunInv cfg st' ∧
+      st'.scs = List.zipWith (· + ·) st.scs (recContrib cfg r) ∧ st'.sites = st.sites + 1 ∧
+      st'.skipped = st.skipped + (if recSkipped cfg r then 1 else 0) := by
+  obtain ⟨hs, h1, h2⟩ := hinv
+  cases r with
+  | corrupt c p => simp [recOk] at hok
+  | gts c p l =>
+    have e := readSite_eq_spec cfg hpt st.site h1 h2 l
+    obtain ⟨l1, l2⟩ := readSite_lengths cfg st.site l
+    rw [h1] at l1; rw [h2] at l2
+    simp only [runStep, recContrib, contrib]
+    generalize readSite cfg st.site l = q at e l1 l2
+    obtain ⟨o, s'⟩ := q
+    simp only at e l1 l2
+    subst e
+    simp only [recOk] at hok
+    cases hsite : siteSpec cfg l with
+    | none => rw [hsite] at hok; cases hok
+    | some site =>
+      cases site with
+      | standard counts =>
+        refine ⟨_, rfl, ⟨?_, l1, l2⟩, ?_, rfl, ?_⟩
+        · simp [addOne_length, hs]
+        · exact addOne_eq_contrib cfg st.scs counts hs
+        · simp [recSkipped, hsite]
+      | projected totals counts =>
+        obtain ⟨pt, hq, _⟩ := siteSpec_projected cfg l totals counts hsite
+        have hc : contribOfSite (α := α) cfg (some (.projected totals counts)) = projectIter totals counts pt :=
+          contribOfSite_projected cfg pt totals counts hq
+        have hlen : (projectIter totals counts pt : List α).length = st.scs.length := by
+          rw [← hc, contribOfSite_length, hs]
+        refine ⟨_, rfl, ⟨?_, l1, l2⟩, ?_, rfl, ?_⟩
+        · simp [addProjected_length, hs]
+        · simp only [hq, Option.getD_some]
+          rw [hc]
+          exact addProjected_one_eq_zipWith _ _ hlen
+        · simp [recSkipped, hsite]
+      | insufficient =>
+        have hsk : recSkipped cfg (.gts c p l) = true := by simp [recSkipped, hsite]
+        cases strict with
+        | true => simp [hsk] at hstrict
+        | false =>
+          refine ⟨_, rfl, ⟨hs, l1, l2⟩, ?_, rfl, ?_⟩
+          · rw [contribOfSite_insufficient]
+            exact (zipWith_add_zero_right _ _ hs).symm
+          · simp [hsk]
+
+/-- The generalised induction hypothesis of `run_eq_sum`: from an arbitrary state, the loop adds the sum of the
+    contributions (`strict = false`, or `strict = true` and no record is skipped). -/
+theorem runLoop_spec (cfg : SiteCfg) (hpt : ∀ pt, cfg.projectTo = some pt → pt.length = numPops cfg.map)
+    (strict : Bool) : ∀ (recs : List Rec) (st : RunSt α), RunInv cfg st → (∀ r ∈ recs, recOk cfg r = true) →
+    (strict = true → ∀ r ∈ recs, recSkipped cfg r = false) →
+    ∃ st', runLoop cfg strict st recs = .ok st' ∧ RunInv cfg st' ∧
+      st'.scs = List.zipWith (· + ·) st.scs (sumContrib cfg recs) ∧ st'.sites = st.sites + recs.length ∧
+      st'.skipped = st.skipped + (recs.filter (recSkipped cfg)).length
+  | [], st, hinv, _, _ => by
+    refine ⟨st, rfl, hinv, ?_, rfl, rfl⟩
+    rw [sumContrib_nil]
+    exact (zipWith_add_zero_right _ _ hinv.1).symm
+  | r :: rs, st, hinv, hok, hstrict => by
+    obtain ⟨st1, e1, inv1, s1, n1, k1⟩ := runStep_spec cfg hpt strict st hinv r (hok r (by simp))
+      (fun h => hstrict h r (by simp))
+    obtain ⟨st2, e2, inv2, s2, n2, k2⟩ := runLoop_spec cfg hpt strict rs st1 inv1
+      (fun x hx => hok x (by simp [hx])) (fun h x hx => hstrict h x (by simp [hx]))
+    refine ⟨st2, ?_, inv2, ?_, ?_, ?_⟩
+    · simp only [runLoop, e1, e2]
+    · rw [s2, s1, sumContrib_cons,
+        zipWith_add_assoc _ _ _ (by rw [hinv.1, recContrib_length]) (by rw [recContrib_length, sumContrib_length])]
+    · rw [n2, n1, List.length_cons]; omega
+    · rw [k2, k1, List.filter_cons]
+      by_cases hsk : recSkipped cfg r = true
+      · simp [hsk]; omega
+      · simp [hsk]
+
+/-- `createRun` on digestible records. -/
+theorem createRun_spec (cfg : SiteCfg) (hpt : ∀ pt, cfg.projectTo = some pt → pt.length = numPops cfg.map)
+    (strict : Bool) (recs : List Rec) (hok : ∀ r ∈ recs, recOk cfg r = true)
+    (hstrict : strict = true → ∀ r ∈ recs, recSkipped cfg r = false) :
+    createRun (α := α) cfg strict recs
+      = .ok (sumContrib cfg recs, recs.length, (recs.filter (recSkipped cfg)).length) := by
+  obtain ⟨st', e, _, s, n, k⟩ := runLoop_spec (α := α) cfg hpt strict recs _ (runInv_init cfg) hok hstrict
+  simp only [createRun, e, s, n, k, Nat.zero_add]
+  rw [zipWith_add_zero_left _ _ (sumContrib_length cfg recs)]
+
+end field
+
+/-! ### C01: unselected columns, bounds -/
+
+theorem selected_congr (map : List (String × Nat)) : ∀ (cols : List String) (gts gts' : List GtRes),
+    gts.length = cols.length → gts'.length = cols.length →
+    (∀ i, i < cols.length → (lookupPop map (cols.getD i "")).isSome →
+      gts.getD i .ploidyError = gts'.getD i .ploidyError) →
+    selected map cols gts = selected map cols gts'
+  | [], _, _, _, _, _ => by rw [selected_nil_left, selected_nil_left]
+  | c :: cs, [], _, h, _, _ => by simp at h
+  | c :: cs, _ :: _, [], _, h, _ => by simp at h
+  | c :: cs, g :: gs, g' :: gs', hl, hl', h => by
+    have ih := selected_congr map cs gs gs' (by simpa using hl) (by simpa using hl')
+      (fun i hi hs => by simpa using h (i + 1) (by simpa using hi) (by simpa using hs))
+    cases hp : lookupPop map c with
+    | none => rw [selected_cons_none _ _ _ _ _ hp, selected_cons_none _ _ _ _ _ hp, ih]
+    | some pid =>
+      have : g = g' := by simpa using h 0 (by simp) (by simp [hp])
+      rw [selected_cons_some _ _ _ _ _ pid hp, selected_cons_some _ _ _ _ _ pid hp, ih, this]
+
+theorem siteSpec_congr (cfg : SiteCfg) (gts gts' : List GtRes)
+    (h : selected cfg.map cfg.cols gts = selected cfg.map cfg.cols gts') : siteSpec cfg gts = siteSpec cfg gts' := by
+  unfold siteSpec; rw [h]
+
+theorem InB_iff_getD : ∀ (s idx : List Nat),
+    InB s idx ↔ idx.length = s.length ∧ ∀ j, j < s.length → idx.getD j 0 < s.getD j 0
+  | [], [] => by simp [InB]
+  | [], _ :: _ => by simp [InB]
+  | _ :: _, [] => by simp [InB]
+  | v :: s, i :: idx => by
+    simp only [InB, InB_iff_getD s idx, List.length_cons, Nat.add_right_cancel_iff]
+    constructor
+    · rintro ⟨h0, hl, h⟩
+      refine ⟨hl, fun j hj => ?_⟩
+      cases j with
+      | zero => simpa using h0
+      | succ j => simpa using h j (by omega)
+    · rintro ⟨hl, h⟩
+      refine ⟨by simpa using h 0 (by omega), hl, fun j hj => ?_⟩
+      simpa using h (j + 1) (by omega)
+
+theorem InB_range_map (n : Nat) (s a : Nat → Nat) (h : ∀ j, j < n → a j < s j) :
+    InB ((List.range n).map s) ((List.range n).map a) := by
+  rw [InB_iff_getD]
+  refine ⟨by simp, fun j hj => ?_⟩
+  have hj' : j < n := by simpa using hj
+  rw [getD_range_map, getD_range_map, if_pos hj', if_pos hj']
+  exact h j hj'
+
+theorem flat_inj (s a b : List Nat) (ha : InB s a) (hb : InB s b) (h : flat s a = flat s b) : a = b := by
+  rw [← unflat_flat s a ha, ← unflat_flat s b hb, h]
+
+theorem popSum_filterMap_le (map : List (String × Nat)) (f : GtRes → Nat) (B j : Nat) :
+    ∀ Z : List (String × GtRes), (∀ cg ∈ Z, f cg.2 ≤ B) →
+    popSum f (Z.filterMap (fun cg => (lookupPop map cg.1).map (fun pid => (pid, cg.2)))) j
+      ≤ B * (Z.filter (fun cg => lookupPop map cg.1 = some j)).length
+  | [], _ => by simp [popSum_nil]
+  | cg :: Z, h => by
+    have ih := popSum_filterMap_le map f B j Z (fun x hx => h x (by simp [hx]))
+    have h0 := h cg (by simp)
+    cases hp : lookupPop map cg.1 with
+    | none => simpa [List.filterMap_cons, hp, List.filter_cons] using ih
+    | some pid =>
+      simp only [List.filterMap_cons, hp, Option.map_some, popSum_cons, List.filter_cons]
+      by_cases e : pid = j
+      · subst e
+        simp only [if_true, decide_true, List.length_cons, Nat.mul_add, Nat.mul_one]
+        omega
+      · have : ¬ (some pid = some j) := by simpa using e
+        simp only [e, this, if_false, decide_false, Nat.zero_add]
+        simpa using ih
+
+theorem lookupPop_some (map : List (String × Nat)) (c : String) (j : Nat) (h : lookupPop map c = some j) :
+    (c, j) ∈ map := by
+  unfold lookupPop at h
+  cases hf : map.find? (fun p => p.1 = c) with
+  | none => rw [hf] at h; cases h
+  | some p =>
+    rw [hf] at h
+    have h1 := List.find?_some hf
+    have h2 := List.mem_of_find?_eq_some hf
+    have h3 : p.2 = j := by simpa using h
+    have h4 : p.1 = c := by simpa using h1
+    obtain ⟨x, y⟩ := p
+    simp only at h3 h4
+    subst h3; subst h4
+    exact h2
+
+/-- Distinct columns looked up into population `j` are at most the listed samples of population `j`. -/
+theorem cols_filter_le (map : List (String × Nat)) (cols : List String) (hnd : cols.Nodup) (j : Nat) :
+    (cols.filter (fun c => lookupPop map c = some j)).length ≤ (map.filter (fun p => p.2 = j)).length := by
+  have hnd' : (cols.filter (fun c => lookupPop map c = some j)).Nodup := hnd.sublist List.filter_sublist
+  have hsub : cols.filter (fun c => lookupPop map c = some j) ⊆ (map.filter (fun p => p.2 = j)).map (·.1) := by
+    intro c hc
+    have := (List.mem_filter.mp hc).2
+    have hm := lookupPop_some map c j (by simpa using this)
+    exact List.mem_map.mpr ⟨(c, j), List.mem_filter.mpr ⟨hm, by simp⟩, rfl⟩
+  have := (List.subperm_of_subset hnd' hsub).length_le
+  simpa using this
+
+theorem altOf_le (gts : List GtRes) (h : ∀ k, GtRes.genotype k ∈ gts → k ≤ 2) (g : GtRes) (hg : g ∈ gts) :
+    altOf g ≤ 2 := by
+  cases g with
+  | genotype k => exact h k hg
+  | skipped s => simp [altOf]
+  | ploidyError => simp [altOf]
+
+/-- Population `j` carries at most twice its number of listed samples. -/
+theorem popSum_altOf_le (map : List (String × Nat)) (cols : List String) (hnd : cols.Nodup) (gts : List GtRes)
+    (hl : gts.length = cols.length) (h : ∀ k, GtRes.genotype k ∈ gts → k ≤ 2) (j : Nat) :
+    popSum altOf (selected map cols gts) j ≤ 2 * (map.filter (fun p => p.2 = j)).length := by
+  have h1 := popSum_filterMap_le map altOf 2 j (cols.zip gts)
+    (fun cg hcg => altOf_le gts h cg.2 (List.of_mem_zip (a := cg.1) (b := cg.2) hcg).2)
+  have h2 : ((cols.zip gts).filter (fun cg => lookupPop map cg.1 = some j)).length
+      = (cols.filter (fun c => lookupPop map c = some j)).length := by
+    have := List.filter_map (f := Prod.fst) (p := fun c => decide (lookupPop map c = some j)) (l := cols.zip gts)
+    rw [List.map_fst_zip (by omega)] at this
+    rw [this, List.length_map]
+    rfl
+  have h3 := cols_filter_le map cols hnd j
+  unfold selected
+  omega
+
+theorem alt_in_bounds (cfg : SiteCfg) (hnd : cfg.cols.Nodup) (hnp : cfg.projectTo = none) (gts : List GtRes)
+    (hl : gts.length = cfg.cols.length) (h : ∀ k, GtRes.genotype k ∈ gts → k ≤ 2) :
+    InB cfg.outShape (altCounts (numPops cfg.map) (selected cfg.map cfg.cols gts)) := by
+  simp only [SiteCfg.outShape, hnp, mapShape, altCounts_eq]
+  apply InB_range_map
+  intro j _
+  have := popSum_altOf_le cfg.map cfg.cols hnd gts hl h j
+  omega
+
+/-! ### C01: the run without projection is a count -/
+
+/-- The records counted at entry `k`: complete, with ALT counts `k`. -/
+def countsAt (cfg : SiteCfg) (k : List Nat) (r : Rec) : Bool :=
+  match gtsOf r with
+  | some l => complete (selected cfg.map cfg.cols l) ∧ altCounts (numPops cfg.map) (selected cfg.map cfg.cols l) = k
+  | none => false
+
+section field
+variable {α : Type} [Field α]
+
+theorem sum_indicator {β} (p : β → Bool) : ∀ l : List β,
+    (l.map (fun r => if p r then (1 : α) else 0)).sum = (((l.filter p).length : Nat) : α)
+  | [] => by simp
+  | r :: l => by
+    rw [List.map_cons, List.sum_cons, sum_indicator p l, List.filter_cons]
+    by_cases h : p r = true
+    · simp [h, add_comm]
+    · simp [h]
+
+theorem sum_zipWith_add : ∀ (a b : List α), a.length = b.length →
+    (List.zipWith (· + ·) a b).sum = a.sum + b.sum
+  | [], [], _ => by simp
+  | x :: a, y :: b, h => by
+    rw [List.zipWith_cons_cons, List.sum_cons, List.sum_cons, List.sum_cons,
+      sum_zipWith_add a b (by simpa using h)]
+    exact add_add_add_comm x y a.sum b.sum
+  | [], _ :: _, h => by simp at h
+  | _ :: _, [], h => by simp at h
+
+/-- Without projection, a digestible well-formed record contributes the indicator of its ALT index if it is complete
+    and nothing otherwise. -/
+theorem recContrib_noproj (cfg : SiteCfg) (hnd : cfg.cols.Nodup) (hnp : cfg.projectTo = none) (r : Rec)
+    (hwf : RecWf cfg r) (hok : recOk cfg r = true) :
+    (recSkipped cfg r = true ∧ recContrib (α := α) cfg r = List.replicate (size cfg.outShape) 0 ∧
+        ∀ k, countsAt cfg k r = false) ∨
+    (recSkipped cfg r = false ∧ ∃ a, InB cfg.outShape a ∧
+        recContrib (α := α) cfg r = (List.range (size cfg.outShape)).map (fun f => if flat cfg.outShape a = f then 1 else 0) ∧
+        ∀ k, countsAt cfg k r = decide (a = k)) := by
+  cases r with
+  | corrupt c p => simp [recOk] at hok
+  | gts c p l =>
+    simp only [recOk, siteSpec_noproj cfg hnp l] at hok
+    have hpe : hasPloidyError (selected cfg.map cfg.cols l) = false := by
+      cases hh : hasPloidyError (selected cfg.map cfg.cols l) with
+      | false => rfl
+      | true => rw [hh] at hok; simp at hok
+    have hs := siteSpec_noproj cfg hnp l
+    rw [hpe] at hs
+    simp only [Bool.false_eq_true, if_false] at hs
+    cases hcmp : complete (selected cfg.map cfg.cols l) with
+    | false =>
+      left
+      rw [hcmp] at hs
+      simp only [Bool.false_eq_true, if_false] at hs
+      refine ⟨by simp [recSkipped, hs], by simp only [recContrib, contrib, hs, contribOfSite_insufficient], ?_⟩
+      intro k; simp [countsAt, gtsOf, hcmp]
+    | true =>
+      right
+      rw [hcmp] at hs
+      simp only [if_true] at hs
+      have hin := alt_in_bounds cfg hnd hnp l hwf.1 hwf.2
+      refine ⟨by simp [recSkipped, hs], _, hin, ?_, ?_⟩
+      · simp only [recContrib, contrib, hs, contribOfSite, hin, and_true]
+      · intro k; simp [countsAt, gtsOf, hcmp]
+
+theorem recContrib_noproj_getD (cfg : SiteCfg) (hnd : cfg.cols.Nodup) (hnp : cfg.projectTo = none) (r : Rec)
+    (hwf : RecWf cfg r) (hok : recOk cfg r = true) (k : List Nat) (hk : InB cfg.outShape k) :
+    (recContrib (α := α) cfg r).getD (flat cfg.outShape k) 0 = if countsAt cfg k r then 1 else 0 := by
+  rcases recContrib_noproj (α := α) cfg hnd hnp r hwf hok with ⟨_, h2, h3⟩ | ⟨_, a, hin, h2, h3⟩
+  · rw [h2, h3 k, getD_replicate]; simp
+  · rw [h2, h3 k, getD_range_map, if_pos (flat_lt _ _ hk)]
+    by_cases e : a = k
+    · simp [e]
+    · have : flat cfg.outShape a ≠ flat cfg.outShape k := fun h => e (flat_inj _ _ _ hin hk h)
+      simp [e, this]
+
+theorem recContrib_noproj_sum (cfg : SiteCfg) (hnd : cfg.cols.Nodup) (hnp : cfg.projectTo = none) (r : Rec)
+    (hwf : RecWf cfg r) (hok : recOk cfg r = true) :
+    (recContrib (α := α) cfg r).sum = if recSkipped cfg r then 0 else 1 := by
+  rcases recContrib_noproj (α := α) cfg hnd hnp r hwf hok with ⟨h1, h2, _⟩ | ⟨h1, a, hin, h2, _⟩
+  · rw [h2, h1]; simp
+  · rw [h2, h1, list_range_sum, Finset.sum_ite_eq]
+    simp [flat_lt _ _ hin]
+
+/-- Entry `k` of the sum of contributions is the number of complete records with ALT counts `k`. -/
+theorem sumContrib_noproj_getD (cfg : SiteCfg) (hnd : cfg.cols.Nodup) (hnp : cfg.projectTo = none) (recs : List Rec)
+    (hwf : ∀ r ∈ recs, RecWf cfg r) (hok : ∀ r ∈ recs, recOk cfg r = true) (k : List Nat)
+    (hk : InB cfg.outShape k) :
+    (sumContrib (α := α) cfg recs).getD (flat cfg.outShape k) 0 = (((recs.filter (countsAt cfg k)).length : Nat) : α) := by
+  rw [sumContrib_getD, ← sum_indicator]
+  congr 1
+  apply List.map_congr_left
+  intro r hr
+  exact recContrib_noproj_getD cfg hnd hnp r (hwf r hr) (hok r hr) k hk
+
+theorem sumContrib_noproj_sum (cfg : SiteCfg) (hnd : cfg.cols.Nodup) (hnp : cfg.projectTo = none) :
+    ∀ (recs : List Rec), (∀ r ∈ recs, RecWf cfg r) → (∀ r ∈ recs, recOk cfg r = true) →
+    (sumContrib (α := α) cfg recs).sum = ((recs.length - (recs.filter (recSkipped cfg)).length : Nat) : α)
+  | [], _, _ => by simp [sumContrib_nil]
+  | r :: rs, hwf, hok => by
+    have ih := sumContrib_noproj_sum cfg hnd hnp rs (fun x hx => hwf x (by simp [hx])) (fun x hx => hok x (by simp [hx]))
+    have hle := List.length_filter_le (recSkipped cfg) rs
+    rw [sumContrib_cons, sum_zipWith_add _ _ (by rw [recContrib_length, sumContrib_length]), ih,
+      recContrib_noproj_sum cfg hnd hnp r (hwf r (by simp)) (hok r (by simp)), List.filter_cons]
+    by_cases hsk : recSkipped cfg r = true
+    · simp [hsk]
+    · have hsk' : recSkipped cfg r = false := by simpa using hsk
+      simp only [hsk', Bool.false_eq_true, if_false, List.length_cons]
+      rw [show rs.length + 1 - (rs.filter (recSkipped cfg)).length
+        = (rs.length - (rs.filter (recSkipped cfg)).length) + 1 by omega]
+      push_cast
+      exact add_comm _ _
+
+end field
+
+/-! ### the sample map and `buildSite` -/
+
+theorem indexMapInsert_keys {κ ν} [DecidableEq κ] (m : List (κ × ν)) (k : κ) (v : ν) :
+    (indexMapInsert m k v).map (·.1) = if k ∈ m.map (·.1) then m.map (·.1) else m.map (·.1) ++ [k] := by
+  unfold indexMapInsert
+  have hany : (m.any (fun p => decide (p.1 = k))) = true ↔ k ∈ m.map (·.1) := by
+    simp only [List.any_eq_true, decide_eq_true_eq, List.mem_map]
+  by_cases h : k ∈ m.map (·.1)
+  · rw [if_pos (hany.mpr h), if_pos h, List.map_map]
+    apply List.map_congr_left
+    intro p _
+    by_cases e : p.1 = k <;> simp [e]
+  · rw [if_neg (mt hany.mp h), if_neg h]; simp
+
+theorem indexMap_foldl_nodup {κ ν} [DecidableEq κ] : ∀ (l m : List (κ × ν)), (m.map (·.1)).Nodup →
+    ((l.foldl (fun m p => indexMapInsert m p.1 p.2) m).map (·.1)).Nodup
+  | [], _, h => h
+  | p :: l, m, h => by
+    rw [List.foldl_cons]
+    apply indexMap_foldl_nodup l
+    rw [indexMapInsert_keys]
+    split
+    · exact h
+    · rename_i hk
+      rw [List.nodup_append]
+      exact ⟨h, by simp, by intro a ha b hb; simp at hb; subst hb; exact fun e => hk (e ▸ ha)⟩
+
+theorem indexMapOfList_nodup {κ ν} [DecidableEq κ] (l : List (κ × ν)) : ((indexMapOfList l).map (·.1)).Nodup :=
+  indexMap_foldl_nodup l [] (by simp)
+
+theorem distinct_foldl_mem {κ} [DecidableEq κ] : ∀ (l acc : List κ) (x : κ),
+    x ∈ l.foldl (fun acc x => if acc.contains x then acc else acc ++ [x]) acc ↔ x ∈ acc ∨ x ∈ l
+  | [], acc, x => by simp
+  | y :: l, acc, x => by
+    rw [List.foldl_cons, distinct_foldl_mem l]
+    by_cases h : acc.contains y = true
+    · rw [if_pos h]
+      have hy := List.contains_iff_mem.mp h
+      simp only [List.mem_cons]
+      constructor
+      · rintro (h1 | h1)
+        · exact Or.inl h1
+        · exact Or.inr (Or.inr h1)
+      · rintro (h1 | h1 | h1)
+        · exact Or.inl h1
+        · exact Or.inl (h1 ▸ hy)
+        · exact Or.inr h1
+    · rw [if_neg h]
+      simp [or_assoc]
+
+theorem mem_distinctInOrder {κ} [DecidableEq κ] (l : List κ) (x : κ) : x ∈ distinctInOrder l ↔ x ∈ l := by
+  unfold distinctInOrder
+  rw [distinct_foldl_mem]; simp
+
+theorem distinct_foldl_map {κ μ} [DecidableEq κ] [DecidableEq μ] (f : κ → μ) : ∀ (l acc : List κ),
+    (∀ x y, (x ∈ acc ∨ x ∈ l) → (y ∈ acc ∨ y ∈ l) → f x = f y → x = y) →
+    (l.map f).foldl (fun acc x => if acc.contains x then acc else acc ++ [x]) (acc.map f)
+      = (l.foldl (fun acc x => if acc.contains x then acc else acc ++ [x]) acc).map f
+  | [], _, _ => rfl
+  | y :: l, acc, hinj => by
+    simp only [List.map_cons, List.foldl_cons]
+    have hc : (acc.map f).contains (f y) = acc.contains y := by
+      rw [Bool.eq_iff_iff, List.contains_iff_mem, List.contains_iff_mem, List.mem_map]
+      constructor
+      · rintro ⟨x, hx, e⟩
+        have := hinj x y (Or.inl hx) (Or.inr (by simp)) e
+        subst this; exact hx
+      · intro h; exact ⟨y, h, rfl⟩
+    rw [hc]
+    by_cases h : acc.contains y = true
+    · rw [if_pos h, if_pos h]
+      exact distinct_foldl_map f l acc (fun x z hx hz => hinj x z
+        (hx.elim Or.inl (fun h => Or.inr (by simp [h]))) (hz.elim Or.inl (fun h => Or.inr (by simp [h]))))
+    · rw [if_neg h, if_neg h]
+      have := distinct_foldl_map f l (acc ++ [y]) (fun x z hx hz => hinj x z
+        (by rcases hx with hx | hx
+            · rcases List.mem_append.mp hx with hx | hx
+              · exact Or.inl hx
+              · exact Or.inr (by simp at hx; simp [hx])
+            · exact Or.inr (by simp [hx]))
+        (by rcases hz with hz | hz
+            · rcases List.mem_append.mp hz with hz | hz
+              · exact Or.inl hz
+              · exact Or.inr (by simp at hz; simp [hz])
+            · exact Or.inr (by simp [hz])))
+      rw [List.map_append] at this
+      exact this
+
+theorem distinctInOrder_map {κ μ} [DecidableEq κ] [DecidableEq μ] (f : κ → μ) (l : List κ)
+    (hinj : ∀ x y, x ∈ l → y ∈ l → f x = f y → x = y) :
+    distinctInOrder (l.map f) = (distinctInOrder l).map f := by
+  unfold distinctInOrder
+  exact distinct_foldl_map f l [] (fun x y hx hy => hinj x y (by simpa using hx) (by simpa using hy))
+
+/-- The number of populations of a sample map is the number of distinct labels of the resolved samples. -/
+theorem numPops_sampleMap (l : List (String × Pop)) :
+    numPops (sampleMap l) = (distinctInOrder ((indexMapOfList l).map (·.2))).length := by
+  unfold numPops sampleMap
+  simp only [List.map_map]
+  have : ((fun p : String × Nat => p.2) ∘ fun p : String × Pop =>
+      (p.1, List.idxOf p.2 (distinctInOrder ((indexMapOfList l).map (·.2)))))
+      = (fun x => List.idxOf x (distinctInOrder ((indexMapOfList l).map (·.2)))) ∘ (·.2) := rfl
+  rw [this, ← List.map_map, distinctInOrder_map, List.length_map]
+  intro x y hx hy e
+  exact (List.idxOf_inj ((mem_distinctInOrder _ x).mpr hx)).mp e
+
+theorem sampleMap_keys_nodup (l : List (String × Pop)) : ((sampleMap l).map (·.1)).Nodup := by
+  unfold sampleMap
+  simp only [List.map_map]
+  exact indexMapOfList_nodup l
+
+theorem sampleMap_snd_lt (l : List (String × Pop)) : ∀ p ∈ sampleMap l, p.2 < numPops (sampleMap l) := by
+  intro p hp
+  rw [numPops_sampleMap]
+  unfold sampleMap at hp
+  obtain ⟨q, hq, rfl⟩ := List.mem_map.mp hp
+  apply List.idxOf_lt_length_of_mem
+  rw [mem_distinctInOrder]
+  exact List.mem_map.mpr ⟨q, hq, rfl⟩
+
+theorem mapShape_length (m : List (String × Nat)) : (mapShape m).length = numPops m := by
+  simp [mapShape]
+
+theorem buildSite_inv_some (l : List (String × Pop)) (project : Option (List Nat)) (cols : List String)
+    (cfg : SiteCfg) (h : buildSite (some l) project cols = .ok cfg) :
+    (∃ l, cfg.map = sampleMap l) ∧ cfg.cols = cols ∧ (∀ p ∈ cfg.map, p.1 ∈ cols) ∧
+    (∀ pt, cfg.projectTo = some pt → pt.length = numPops cfg.map) ∧ (project = none → cfg.projectTo = none) := by
+  simp only [buildSite] at h
+  have hm : ∃ l', sampleMap l = sampleMap l' := ⟨l, rfl⟩
+  generalize sampleMap l = map at h hm
+  by_cases hemp : map.isEmpty = true
+  · rw [if_pos hemp] at h; cases h
+  · rw [if_neg hemp] at h
+    cases hfind : map.find? (fun p => !cols.contains p.1) with
+    | some p => rw [hfind] at h; cases h
+    | none =>
+      rw [hfind] at h
+      have hmem : ∀ p ∈ map, p.1 ∈ cols := by
+        intro p hp
+        have := List.find?_eq_none.mp hfind p hp
+        simpa using this
+      cases project with
+      | none =>
+        simp only at h
+        injection h with h; subst h
+        exact ⟨hm, rfl, hmem, by intro pt hpt; cases hpt, fun _ => rfl⟩
+      | some toShape =>
+        simp only at h
+        by_cases hlen : (mapShape map).length ≠ toShape.length
+        · rw [if_pos hlen] at h; cases h
+        · rw [if_neg hlen] at h
+          cases hfs : firstSmaller (mapShape map) toShape 0 with
+          | some q => rw [hfs] at h; cases h
+          | none =>
+            rw [hfs] at h
+            cases hcs : countOfShape toShape with
+            | none => rw [hcs] at h; cases h
+            | some pt =>
+              rw [hcs] at h
+              simp only at h
+              injection h with h; subst h
+              refine ⟨hm, rfl, hmem, ?_, by intro h; cases h⟩
+              intro pt' hpt'
+              simp only [Option.some.injEq] at hpt'
+              subst hpt'
+              have := ((countOfShape_some_iff toShape pt).mp hcs).2
+              rw [this, List.length_map, ← mapShape_length]
+              simpa using hlen
+
+/-- What a successful `buildSite` returns. -/
+theorem buildSite_inv (samples : Option (List (String × Pop))) (project : Option (List Nat)) (cols : List String)
+    (cfg : SiteCfg) (h : buildSite samples project cols = .ok cfg) :
+    (∃ l, cfg.map = sampleMap l) ∧ cfg.cols = cols ∧ (∀ p ∈ cfg.map, p.1 ∈ cols) ∧
+    (∀ pt, cfg.projectTo = some pt → pt.length = numPops cfg.map) ∧ (project = none → cfg.projectTo = none) := by
+  cases samples with
+  | none => exact buildSite_inv_some _ project cols cfg h
+  | some l => exact buildSite_inv_some l project cols cfg h
+
+theorem buildSite_ok (samples : Option (List (String × Pop))) (project : Option (List Nat)) (cols : List String)
+    (hnd : cols.Nodup) (cfg : SiteCfg) (h : buildSite samples project cols = .ok cfg) : CfgOk cfg := by
+  obtain ⟨⟨l, hl⟩, hcols, hmem, hpt, _⟩ := buildSite_inv samples project cols cfg h
+  refine ⟨hcols ▸ hnd, hcols ▸ hmem, ?_, ?_, hpt⟩
+  · rw [hl]; exact sampleMap_keys_nodup l
+  · rw [hl]; exact sampleMap_snd_lt l
+
+theorem buildSite_shape (samples : Option (List (String × Pop))) (cols : List String) (cfg : SiteCfg)
+    (h : buildSite samples none cols = .ok cfg) :
+    cfg.outShape = (List.range (numPops cfg.map)).map (fun j => 2 * (cfg.map.filter (fun p => p.2 = j)).length + 1) := by
+  obtain ⟨_, _, _, _, hnp⟩ := buildSite_inv samples none cols cfg h
+  simp only [SiteCfg.outShape, hnp rfl, mapShape]
+  apply List.map_congr_left
+  intro j _
+  omega
 
 end Sfs
